@@ -222,10 +222,12 @@ func init() {
 			"every binary operator token has one, unary and index bind tighter, equal powers associate to the left (R-PREC); operands, index and " +
 			"slice bounds, range triples, list elements and map-literal values are evaluated left to right, and/or skip their right operand exactly " +
 			"under the documented conditions (R-EVALORDER, R-MAPRANGE); the operator×operand matrix implemented by the evaluator and admitted by " +
-			"the parser equals the specification's table (R-DISPATCH).",
-		NotDecided:  "Numerical/string results of each operator, deep equality, the whitespace-sensitive tokenisation.",
+			"the parser equals the specification's table (R-DISPATCH); every operator case computes the Go operation its symbol stands for on (left, right) in this order, " +
+			"in the evaluator and — through the compiler's operator→opcode table — on the VM (R-OPSEM); concatenation and repetition build their own storage and repetition " +
+			"deep-copies also through an any (R-FRESH, R-EVALMISC).",
+		NotDecided:  "IEEE arithmetic of the Go operators themselves, the element-wise part of deep equality on arrays, the whitespace-sensitive tokenisation.",
 		Assumptions: []string{"docs/spec.md keeps its `## Precedence` numbered list and its operator table (otherwise the check is undecided, never silent)"},
-		Rules:       []*Rule{rulePrec, ruleEvalOrder, ruleDispatch, ruleMapRange, ruleWSSClose, ruleMapEq},
+		Rules:       []*Rule{rulePrec, ruleEvalOrder, ruleDispatch, ruleOpSem, ruleMapRange, ruleWSSClose, ruleMapEq, ruleEvalMisc, ruleFresh},
 	})
 }
 
@@ -297,7 +299,7 @@ func init() {
 			"of absolute indexes and nested tables continue the outer numbering (R-SLOTMAX).",
 		NotDecided:  "Equality of final globals in general; slot arithmetic of the symbol table; constant pooling.",
 		Assumptions: []string{},
-		Rules:       []*Rule{exhaustRule("Compile", 20), fieldCovRule("Compile"), ruleDispatch, ruleLoopVarScope, ruleVMValues, runesRule("pkg/bytecode", "stringVal", 4), f2iRule("pkg/bytecode", 2), ruleSlotMax},
+		Rules:       []*Rule{exhaustRule("Compile", 20), fieldCovRule("Compile"), ruleDispatch, ruleOpSem, ruleLoopVarScope, ruleVMValues, runesRule("pkg/bytecode", "stringVal", 4), f2iRule("pkg/bytecode", 2), ruleSlotMax},
 	})
 }
 
